@@ -334,6 +334,36 @@ pub async fn exec(app: &Arc<AppShareData>, op: &Value) -> Value {
                     Err(_) => Ok(json!({"res":"timeout"})),
                 }
             }
+            "ns_http_register" | "ns_http_deregister" => {
+                // what the HTTP instance handlers do: NamingRoute (the owner node of the service applies, the others sync)
+                use rnacos::naming::model::{Instance, InstanceUpdateTag};
+                let mut i = Instance { ip: Arc::new(op["ip"].as_str().unwrap().to_string()), port: op["port"].as_u64().unwrap() as u32,
+                    weight: op["weight"].as_f64().unwrap_or(1.0) as f32, enabled: op["enabled"].as_bool().unwrap_or(true), healthy: true, ephemeral: true,
+                    cluster_name: "DEFAULT".into(), service_name: Arc::new(op["service"].as_str().unwrap().to_string()),
+                    group_name: Arc::new("DEFAULT_GROUP".into()), namespace_id: Arc::new("public".to_string()), ..Default::default() };
+                i.generate_key();
+                let r = if name == "ns_http_register" {
+                    let tag = InstanceUpdateTag { weight: true, metadata: true, enabled: true, ephemeral: false, from_update: false };
+                    app.naming_route.update_instance(i, Some(tag)).await
+                } else {
+                    app.naming_route.delete_instance(i).await
+                };
+                match r {
+                    Ok(_) => Ok(json!({"res":"ok"})),
+                    Err(e) => Ok(json!({"res":"error","err":e.to_string()})),
+                }
+            }
+            "ns_dump" => {
+                let d: Value = serde_json::from_str(&app.naming_addr.send(rnacos::verif_hooks::DumpNaming).await?)?;
+                let mut out = vec![];
+                for s in d["services"].as_array().cloned().unwrap_or_default() {
+                    for i in s["instances"].as_array().cloned().unwrap_or_default() {
+                        out.push(json!({"service": s["service"], "ip": i["ip"], "port": i["port"], "healthy": i["healthy"], "enabled": i["enabled"],
+                            "weight": i["weight"], "client": i["client_id"], "from_cluster": i["from_cluster"], "from_grpc": i["from_grpc"]}));
+                    }
+                }
+                Ok(json!({"res":"ok","instances":out,"clients":d["client_instance_set"]}))
+            }
             "cfg_tmp" => {
                 // the follower's echo of a publish it routed to the leader (ConfigRoute::set_config, Remote branch)
                 use rnacos::config::core::{ConfigCmd, ConfigKey};
